@@ -106,13 +106,13 @@ package annotations
 //@ func (*updater).setAuthExternal
 //@   props C18
 //@   requires args:  auth != nil && url != nil && config != nil
-//@   requires named: authProxyNamed(c.haproxy.Frontend())
+//@   requires named: authProxyNamed(c.haproxy.Frontend()) && authProxySorted(c.haproxy.Frontend())
 //@   modifies *auth, objects("hatypes.Frontend"), objects("[]*hatypes.AuthProxyBind"),
 //@       objects("hatypes.Backends"), objects("hatypes.Backend"), objects("hatypes.Endpoint"), objects("map[string]*hatypes.Backend"),
 //@       objects("[]map[string]*hatypes.Backend"), objects("[]*hatypes.Endpoint"), objects("[]bool"), objects("[]string"), objects("map[int]bool")
 //@   ensures closed: auth.AlwaysDeny || (auth.AuthBackendName != "" && auth.AuthPath != "")
 //@   ensures others: forall p *hatypes.BackendPath :: old(allocated(p)) && &p.AuthExternal != auth ==> p.AuthExternal == old(p.AuthExternal)
-//@   ensures named:  authProxyNamed(c.haproxy.Frontend())
+//@   ensures named:  authProxyNamed(c.haproxy.Frontend()) && authProxySorted(c.haproxy.Frontend())
 //@   ensures bpaths: forall b *hatypes.Backend :: old(allocated(b)) ==> b.Paths == old(b.Paths)
 //@   ensures links:  forall p *hatypes.BackendPath :: old(allocated(p)) ==> p.Link == old(p.Link)
 //@   at call AcquireAuthBackendName#1 assert lua: !(external.IsExternal && !external.HasLua)
@@ -159,10 +159,10 @@ package annotations
 //@ func (*updater).buildBackendAuthExternal
 //@   props C18
 //@   requires wf:    d != nil && pathConfigWF(d.mapper) && pathsWF(d.backend)
-//@   requires named: authProxyNamed(c.haproxy.Frontend())
+//@   requires named: authProxyNamed(c.haproxy.Frontend()) && authProxySorted(c.haproxy.Frontend())
 //@   ensures closed: forall k int :: 0 <= k && k < len(d.backend.Paths) && declaresBackendAuth(d.mapper, d.backend.Paths[k]) ==> closedAuth(&d.backend.Paths[k].AuthExternal)
 //@   loop 1 invariant rng:   0 <= $idx(1) && $idx(1) <= len(d.backend.Paths) && d.backend == old(d.backend) && d.mapper == old(d.mapper) && d.backend.Paths == old(d.backend.Paths)
-//@   loop 1 invariant wf:    pathConfigWF(d.mapper) && pathsWF(d.backend) && authProxyNamed(c.haproxy.Frontend())
+//@   loop 1 invariant wf:    pathConfigWF(d.mapper) && pathsWF(d.backend) && authProxyNamed(c.haproxy.Frontend()) && authProxySorted(c.haproxy.Frontend())
 //@   loop 1 invariant seen:  forall k int :: 0 <= k && k < $idx(1) ==> in(d.backend.Paths[k].Link.Hash(), d.mapper.configByPath)
 //@   loop 1 invariant done:  forall k int :: 0 <= k && k < $idx(1) && declaresBackendAuth(d.mapper, d.backend.Paths[k]) ==> closedAuth(&d.backend.Paths[k].AuthExternal)
 //@ end
@@ -174,11 +174,11 @@ package annotations
 //@ func (*updater).buildHostAuthExternal
 //@   props C18
 //@   requires wf:    d != nil && mapperWF(d.mapper) && hostPathsWF(d.host)
-//@   requires named: authProxyNamed(c.haproxy.Frontend())
+//@   requires named: authProxyNamed(c.haproxy.Frontend()) && authProxySorted(c.haproxy.Frontend())
 //@   ensures closed: lower(old(mapperValue(d.mapper, ingtypes.BackAuthExternalPlacement))) == "frontend" && old(mapperValue(d.mapper, ingtypes.BackAuthURL)) != "" ==>
 //@       forall k int :: 0 <= k && k < len(d.host.Paths) ==> d.host.Paths[k].AuthExt != nil && closedAuth(d.host.Paths[k].AuthExt)
 //@   loop 1 invariant rng:  0 <= $idx(1) && $idx(1) <= len(d.host.Paths) && d.host == old(d.host) && d.host.Paths == old(d.host.Paths) && url != nil
-//@   loop 1 invariant wf:   hostPathsWF(d.host) && authProxyNamed(c.haproxy.Frontend())
+//@   loop 1 invariant wf:   hostPathsWF(d.host) && authProxyNamed(c.haproxy.Frontend()) && authProxySorted(c.haproxy.Frontend())
 //@   loop 1 invariant done: forall k int :: 0 <= k && k < $idx(1) ==> d.host.Paths[k].AuthExt != nil && closedAuth(d.host.Paths[k].AuthExt)
 //@ end
 
